@@ -616,9 +616,21 @@ def check_bingham(ck):
                   f'the minimal gap between spread eigenvalues depends on the eigenvalues themselves ({dep}): for the Bingham parameter eigenvalues (maximum 0 by '
                   f'construction) a relative gap is 0, duplicates survive and the normaliser divides by zero', construct=f'R-DEP::{q}::absolute-gap')
     if 'eps' in fn.defaults:
-        d = A.ev.default_av(fn, 'eps', A.ev.entry(fn))
-        run.check(d is not None and d.sign == 'POS', 'R-SIGN', 'ComplexBingham._remove_duplicate_eigenvalues: default gap is positive', fn.loc(), '',
-                  'the default minimal gap is not a positive number', construct=f'R-SIGN::{q}::gap-default')
+        ctx0 = A.ev.entry(fn)
+        d = A.ev.default_av(fn, 'eps', ctx0)
+        if d is not None and d.is_const and d.cval is None:
+            # a `None` sentinel resolved in the body (campaign 13): the value that reaches the floor under the defaults decides
+            try:
+                d = A.ev.eval(floors[0][1], ctx0)
+            except Exception:
+                d = None
+            if d is None or d.sign != 'POS':
+                run.unresolved('R-SIGN', 'ComplexBingham._remove_duplicate_eigenvalues: default gap is positive', fn.loc(),
+                               'the default is a None sentinel and the value it is resolved to is not evaluated to a positive number')
+                d = False
+        if d is not False:
+            run.check(d is not None and d.sign == 'POS', 'R-SIGN', 'ComplexBingham._remove_duplicate_eigenvalues: default gap is positive', fn.loc(), '',
+                      'the default minimal gap is not a positive number', construct=f'R-SIGN::{q}::gap-default')
 
 
 def check_cacg(ck):
